@@ -104,6 +104,12 @@ func (s Spec) Bytes() []byte {
 	switch s.Fam {
 	case "random": // incompressible: only literals (n > 33k: several adaptive-tree rebuilds)
 		return vrt.Bytes(r, n)
+	case "alpha": // uniform over an alphabet of P letters (literals and short matches in every mixture)
+		p := min(max(s.P, 2), 256)
+		syms := r.Perm(256)[:p]
+		for len(out) < n {
+			out = append(out, byte(syms[r.Intn(p)]))
+		}
 	case "lowent": // P symbols with a geometric distribution
 		p := max(s.P, 2)
 		syms := vrt.Bytes(r, p)
@@ -302,6 +308,23 @@ func RandomSpec(r *rand.Rand) Spec {
 		s.P = r.Intn(130)
 	}
 	return s
+}
+
+// RebuildSpecs returns n inputs that each take the adaptive Huffman tree through at least one
+// rebuild (more than ~32.4k symbols) with many different symbol neighbourhoods at the moment of the
+// rebuild: uniform text over alphabets of 3..256 letters, 50-140 kB. What happens right at a rebuild
+// (which symbol triggers it, which one follows, whether codes change) differs from input to input, so
+// this family is about volume: a codec fault tied to the rebuild moment shows in a few percent of them.
+func RebuildSpecs(seed int64, n int) []Spec {
+	r := vrt.Rand(seed, "lzwork-rebuild")
+	out := make([]Spec, n)
+	for i := range out {
+		out[i] = Spec{Fam: "alpha", Size: 50000 + r.Intn(90000), P: vrt.Pick(r, []int{3, 4, 6, 8, 12, 16, 16, 16, 24, 32, 64, 128, 256}), Seed: r.Int63()}
+		if out[i].P <= 6 {
+			out[i].Size *= 3 // long matches: more bytes per symbol
+		}
+	}
+	return out
 }
 
 // LongChunks cuts the index range of LongSpecs(seed, n) into batches [lo,hi): the 12 big inputs at
